@@ -344,11 +344,11 @@ PROPS = {
         trusted=["AtomicU32/AtomicU64::fetch_add, x86 `lock add` and Cranelift `atomic_rmw` are each one indivisible step (the model's unit of interleaving)"],
     ),
     "C20": dict(
-        custom="run_c20", suites=["asm", "asmfuzz%4", "dis%2", "verify%3", "exec-matrix%4", "exec-memops", "exec-random%2", "exec-calls%3", "api%2", "exec-pageboundary"], level="proof",
-        proof_of=["C01", "C06", "C13", "C14", "C15", "C10"],
+        custom="run_c20", suites=["asm", "asmfuzz%4", "dis%2", "verify%3", "exec-matrix%4", "exec-memops", "exec-random%2", "exec-calls%3", "api%2", "exec-pageboundary", "helper%3"], level="proof",
+        proof_of=["C01", "C06", "C13", "C14", "C15", "C10", "C19"],
         nontrivial=lambda line, impl: True,
         rule="both builds of the crate (default features; default-features = false, i.e. no_std) are driven over the same case files: the whole asm suite, every 4th asmfuzz text, every 2nd dis case, "
-             "every 3rd verify byte string, every 4th case of the C01 operation matrix, the memory matrix, every 2nd random program and every 3rd call graph, the programs whose machine code is swept byte by byte across one 4096-byte page (the no_std JIT sizes and fills caller-supplied memory), every 2nd API history of the C10 suite (load / set_verifier / register_helper / jit_compile / execute / execute_jit on the four VM kinds; the Cranelift operations, absent without std, removed) - the interpreter on all of them and the x86-64 JIT "
+             "every 3rd verify byte string, every 4th case of the C01 operation matrix, the memory matrix, every 2nd random program and every 3rd call graph, the programs whose machine code is swept byte by byte across one 4096-byte page (the no_std JIT sizes and fills caller-supplied memory), every 2nd API history of the C10 suite (load / set_verifier / register_helper / jit_compile / execute / execute_jit on the four VM kinds; the Cranelift operations, absent without std, removed), every 3rd case of the helper suite for the helpers that exist in both builds (gather_bytes, memfrob, strcmp) - the interpreter on all of them and the x86-64 JIT "
              "(no_std: running from caller-supplied mmap'ed executable memory through set_jit_exec_memory). Each transcript is diffed against the one Lean model (each with its own echoed host addresses) and the two "
              "transcripts against each other wherever the outcome is address-independent. The quantifier over feature configurations {std, no_std} is enumerated completely. Non-trivial: distinct case line.",
         trusted=["the no_std harness is a separate small crate (harness_nostd) printing the same formats"], exhaustive=False,
@@ -500,11 +500,14 @@ def run_c20(core, pid, tier, seed, replay):
                 # the no_std harness drives the metadata VM: cases that name it are kept as they are, cases of other kinds dropped
                 got = [(l if " kind=mbuff" in l else l + " engines=jit kind=mbuff") for l in got
                        if " extra=" not in l and (" kind=" not in l or (" kind=mbuff" in l and " engines=" in l))]
+            if name == "helper":
+                # the helpers that exist without `std`
+                got = [l for l in got if l.split()[1] in ("gather", "memfrob", "strcmp")]
             if name == "api":
                 # the Cranelift entry points do not exist without `std`: the histories are run without those two operations, on both builds
                 def strip(l):
                     pre, _, ops = l.partition(" ops=")
-                    keep = [o for o in ops.split(";") if o not in ("cc", "xc")]
+                    keep = [o for o in ops.split(";") if o.split(":")[0] not in ("cc", "xc")]
                     return pre + " ops=" + ";".join(keep) if keep else None
                 got = [x for x in (strip(l) for l in got) if x]
             lines += got
